@@ -325,6 +325,19 @@ def run(ctx, res):
                         "ds1": f2b(1.0), "dds1": f2b(1.0), "ds2": f2b(1.0), "dds2": f2b(1.0)}
                 lines.append(line)
                 meta.append((case["ltype"], v, scaled))
+                if not scaled:
+                    base_v, base_dist = v, (float(ddt), float(dd))
+                else:
+                    # the whole chain in the model (Model/H0Sample: cosmology -> distances -> displacement -> data term) at
+                    # (H0, data) and, rescaled, at (c H0, data / c): both compared with the real lens term
+                    d0 = case["data"]
+                    lines.append({"op": "C19.lens", "tag": case["model"], "kw": [[k_, f2b(float(x_))] for k_, x_ in sorted(case["p1"].items())],
+                                  "c": f2b(float(case["c"])), "depth": 9, "type": case["ltype"], "z_lens": f2b(cfg["z_lens"]), "z_source": f2b(cfg["z_source"]),
+                                  "gamma_ppn": f2b(hl.get("gamma_ppn", 1)), "lambda_mst": f2b(lam), "kappa_ext": f2b(0.0),
+                                  "ddt_mean": f2b(d0.get("ddt_mean", 1.0)), "ddt_sigma": f2b(d0.get("ddt_sigma", 1.0)), "ddt_mu": f2b(d0.get("ddt_mu", 1.0)),
+                                  "ln_sigma": f2b(d0.get("ddt_sigma", 1.0)), "dd_mean": f2b(d0.get("dd_mean", 1.0)), "dd_sigma": f2b(d0.get("dd_sigma", 1.0)),
+                                  "ds_dds_mean": f2b(d0.get("ds_dds_mean", 1.0)), "ds_dds_sigma": f2b(d0.get("ds_dds_sigma", 1.0))})
+                    meta.append(("end-to-end:" + case["ltype"], (base_v, v, base_dist, float(case["c"])), None))
     for _ in range(ctx.n(20, 100)):
         sseed = rng.randrange(2 ** 30)
         k_ = res.distribution.get("sample_tried", 0)
@@ -361,6 +374,19 @@ def run(ctx, res):
         res.traces += 1
         if "err" in o:
             res.disagree("driver error " + o["err"], {"type": lt})
+            continue
+        if lt.startswith("end-to-end:"):
+            base_v, scaled_v, (ddt_b, dd_b), c_ = v
+            m = {k_: b2f(x_) for k_, x_ in o["ok"].items()}
+            lam_disp = m["ddt_"], m["dd_"]
+            # distances: Simpson with 2^9 panels against astropy's integration (the displaced Ddt is the real Ddt x lambda (1 - kappa))
+            tol = lambda a_, b_: abs(a_ - b_) <= 1e-6 * max(1.0, abs(b_))  # noqa
+            for name, mv_, iv_ in (("term at (H0, data)", m["base"], base_v), ("term at (c H0, data / c)", m["scaled"], scaled_v)):
+                if math.isfinite(iv_) and iv_ > -1e6 and not (tol(mv_, iv_) or abs(mv_ - iv_) <= 2e-5 * abs(iv_)):
+                    res.disagree("%s %s: model (end to end from the cosmology) %r implementation %r" % (lt, name, mv_, iv_), {"type": lt})
+            if math.isfinite(m["base"]) and abs(m["scaled"] - m["base"] - m["const"]) > 1e-7 * max(1.0, abs(m["base"])):
+                res.disagree("%s: the model's own terms at (c H0, data / c) and (H0, data) differ by %r, the constant is %r"
+                             % (lt, m["scaled"] - m["base"], m["const"]), {"type": lt})
             continue
         mv = b2f(o["ok"][lt])
         if math.isfinite(v) and v > -1e6 and not close(mv, v, 1e-8):
